@@ -111,7 +111,7 @@ def rule_phi(chk, prog, tier):
         def cond(c, a, b): return w.mkexpr('EXPRCOND', T, c, u__cond__t=a, u__cond__f=b)
         def land(a, b): return w.mkexpr('EXPRBINARY', T, None, op=ev(prog, 'TLAND'), u__binary__l=a, u__binary__r=b)
         def lor(a, b): return w.mkexpr('EXPRBINARY', T, None, op=ev(prog, 'TLOR'), u__binary__l=a, u__binary__r=b)
-        def die():
+        def die(T=T):
             # (die(), 1): call to a _Noreturn function followed by a constant
             ft = it.call('mktype', [ev(prog, 'TYPEFUNC'), 0])
             ft.obj.f[('base',)] = w.t('void'); ft.obj.f[('u', 'func', 'isvararg')] = 0; ft.obj.f[('u', 'func', 'nparam')] = 0; ft.obj.f[('u', 'func', 'params')] = None
@@ -139,9 +139,14 @@ def rule_phi(chk, prog, tier):
             'a?x:(die(),1)': lambda: cond(a, x, die()),
             'a&&(die(),1)': lambda: land(a, die()),
             'a||(die(),1)': lambda: lor(a, die()),
+            # the no-return call in the LEFT operand / the condition, and a right operand that needs no conversion (no instruction opens a new block by itself)
+            '(die(),1)||x': lambda: lor(die(), x), '(die(),1)&&x': lambda: land(die(), x), '(die(),1)?x:y': lambda: cond(die(), x, y),
+            'a||(die(),(_Bool)1)': lambda: lor(a, die(w.t('bool'))), 'a&&(die(),(_Bool)1)': lambda: land(a, die(w.t('bool'))),
+            '((die(),1)||a)&&b': lambda: land(lor(die(), a), b), 'a?((die(),1)&&x):y': lambda: cond(a, land(die(), x), y),
         }[shape]()
     shapes = ['a?x:y', 'a?(b?x:y):z', 'a?x:(b?y:z)', '(a?b:c)?x:y', 'a?(b&&c):x', 'a?x:(b||c)', 'a&&b', 'a||b', 'a&&(b||c)', '(a&&b)||c',
-              'a&&(b?x:y)', '(a?x:y)||b', 'a?(die(),1):x', 'a?x:(die(),1)', 'a&&(die(),1)', 'a||(die(),1)']
+              'a&&(b?x:y)', '(a?x:y)||b', 'a?(die(),1):x', 'a?x:(die(),1)', 'a&&(die(),1)', 'a||(die(),1)',
+              '(die(),1)||x', '(die(),1)&&x', '(die(),1)?x:y', 'a||(die(),(_Bool)1)', 'a&&(die(),(_Bool)1)', '((die(),1)||a)&&b', 'a?((die(),1)&&x):y']
     for shape in shapes:
         def runner(it, shape=shape):
             w = World(prog, it=it, target='x86_64-sysv')
@@ -487,6 +492,49 @@ def rule_mnemonics(chk, prog, tier):
     r.exhaustive = True
 
 
+# ------------------------------------------------------------------ C03.n where the size of a variably modified typedef is computed
+
+def rule_vla_typedef(chk, prog, tier):
+    r = chk.rule('C03.n', 'the size of a variably modified type named by a block-scope typedef is computed when the typedef declaration is reached (6.7.8p3), so the temporary that holds it is defined in a block that dominates every use of the name; '
+                 'computing it lazily at the first object declared with the name leaves later objects on other paths with an undefined temporary', floor=3, oracle='C11 6.7.8p3; QBE: a temporary must be defined on every path to its use')
+    from props import c09
+    decl_fn = prog.require_func('decl', 'decl.c')
+    for shape in ('int[n]', 'int[n][3]', 'int(*)[n]'):
+        def runner(it):
+            dw = c09.DeclWorld(prog, it); it.user['dw'] = dw
+            w = dw.w
+            PV = ev(prog, 'PROPVM')
+            vla = it.call('mkarraytype', [w.t('int'), 0, 0]); vla.obj.f.update({('incomplete',): 0, ('size',): 0, ('prop',): PV, ('u', 'array', 'length'): w.temp(w.t('int'), 'n')})
+            if shape == 'int[n]': T = vla
+            elif shape == 'int[n][3]':
+                inner = it.call('mkarraytype', [w.t('int'), 0, 3]); vla.obj.f[('base',)] = inner; T = vla
+            else:
+                T = w.mkptr(vla); T.obj.f[('prop',)] = it.load(T.obj, ('prop',)) | PV
+            base_declspecs = it.models['declspecs']
+            def declspecs(i2, a, e):
+                base_declspecs(i2, a, e)
+                i2.assign(a[1].obj, a[1].path, ev(prog, 'SCTYPEDEF'))
+                return StructVal({('type',): T, ('qual',): 0, ('expr',): None})
+            def declarator(i2, a, e):
+                s_, base, name, funcscope, allowabstract = a
+                i2.assign(name.obj, name.path, dw.name); i2.assign(funcscope.obj, funcscope.path, None)
+                return StructVal({('type',): T, ('qual',): 0, ('expr',): None})
+            it.models.update(cmodel.backend_models(prog))
+            it.models.update({'declspecs': declspecs, 'declarator': declarator, 'funcexpr': lambda i2, a, e: cmodel.val('len'), 'convert': lambda i2, a, e: a[3]})
+            it.user['cur'] = c09.D('obj', 'block', ()); it.user['semi'] = [False, True]
+            dw.tokobj.f[('kind',)] = ev(prog, 'TSEMICOLON')
+            s_ = dw.block(); f = Ptr(Obj('curfunc', 'heap'), ())
+            it.call(decl_fn, [s_, f])
+            return it.load(vla.obj, ('u', 'array', 'size')) is not None, len([e_ for e_ in it.events if e_[0] == 'inst'])
+        runs = explore(prog, runner, c09.decl_models(prog, None), max_runs=4, on_unsupported='keep')
+        key = 'vla-typedef:typedef %s T;' % shape
+        if len(runs) != 1 or runs[0].outcome != 'return':
+            raise AnalysisBroken('%s: %s' % (key, [(x.outcome, x.detail) for x in runs][:2]))
+        has, ninst = runs[0].value
+        r.instance(has and ninst >= 1, key, 'decl.c:%s' % decl_fn.get('line'), 'after the typedef declaration the size of the array type must have been computed (instructions emitted: %d, size value present: %s)' % (ninst, has))
+    r.exhaustive = False
+
+
 # ------------------------------------------------------------------ C03.j the printer
 
 def rule_printer(chk, prog, tier):
@@ -628,6 +676,7 @@ def run(chk, tier):
     chk.guard('C03.k', lambda: rule_block_chain(chk, prog, tier))
     chk.guard('C03.l', lambda: rule_alloc_chain(chk, prog, tier))
     chk.guard('C03.m', lambda: rule_mnemonics(chk, prog, tier))
+    chk.guard('C03.n', lambda: rule_vla_typedef(chk, prog, tier))
     from props import c07
     chk.guard('C07.b', lambda: c07.rule_emitdata(chk, prog, tier))          # a data definition has exactly the size of the object: items and zero padding add up
     from props import c09
